@@ -33,7 +33,8 @@ def clutter(rng, cfg):
             fixed + b"_r00001" + sfx + b".gz", fixed + b"_r2024-02-29_23-59-58.restart-0000" + sfx, fixed + b"_r2024-02-29_23-59-58.restart-xy" + sfx,
             fixed + b"_r2024-02-29_23-59-58.restart-00" + sfx, fixed + sfx, fixed + b"_r99999" + sfx, fixed + b"_r100000" + sfx,
             fixed + b"_r+3" + sfx, fixed + b"_r20240229-235958" + sfx, fixed + b"_r2024-13-45_99-99-99" + sfx, fixed + b"x" + sfx]
-    return rng.sample(pool, rng.randint(1, 5))
+    pool = [n for n in pool if n]      # (an empty name is no file name)
+    return rng.sample(pool, rng.randint(1, min(5, len(pool))))
 
 
 def gen_flw(rng, tier):
@@ -44,13 +45,13 @@ def gen_flw(rng, tier):
         naming = rng.choice(g.NAMINGS)
     base = rng.choice([b"a", b"app", b"", "é".encode(), b"my.prog", b"a b"])
     disc = rng.choice([None, None, b"d", b"", "ü".encode()])
-    if not base and not disc:
-        base = b"a"
     cfg = g.Cfg(base=base, disc=disc, sfx=rng.choice([b"log", b"log", None, b"trc", "lög".encode()]),
                 crit=rng.choice(["s0", "s8", "as", "xm8", None]), naming=naming,
                 cleanup=rng.choice(["n", "n", "l1", "g1", "b1.1"]), append=rng.random() < 0.5, cap=rng.choice([None, None, 16]))
     if cfg.crit is None:
         cfg.cleanup = "n"
+        if not cfg.fixed() and cfg.sfx is None:
+            cfg.base = b"a"      # without rotation the file name must not be empty
     ops = []
     for nm in clutter(rng, cfg):
         ops.append("XC:%s:%d:%s" % (g.hx(nm), 1 if nm.endswith(b".gz") else 0, g.hx(b"x\n")))
